@@ -774,6 +774,7 @@ func (r *Raft) submitReadOnlyOperation(
 		Bytes:         operationBytes,
 		OperationType: readOnlyType,
 		readIndex:     readIndex,
+		round:         r.operationManager.rounds,
 	}
 	r.operationManager.pendingReadOnly[operation] = operationFuture.responseCh
 
@@ -964,25 +965,29 @@ func (r *Raft) AppendEntries(request *AppendEntriesRequest, response *AppendEntr
 
 // sendAppendEntriesToPeers sends an AppendEntries RPC to all nodes.
 func (r *Raft) sendAppendEntriesToPeers() {
+	// Only read-only operations submitted before this round may be verified by it.
+	r.operationManager.rounds++
+	round := r.operationManager.rounds
+
 	// Handle the single node cluster case.
 	if r.isSingleServerCluster() {
 		if r.log.LastIndex() > r.commitIndex {
 			r.commitCond.Broadcast()
 		}
-		r.tryApplyReadOnlyOperations()
+		r.tryApplyReadOnlyOperations(round)
 	}
 
 	numResponses := 1
 	for id, address := range r.configuration.Members {
 		if id != r.id {
-			go r.sendAppendEntries(id, address, &numResponses)
+			go r.sendAppendEntries(id, address, &numResponses, round)
 		}
 	}
 }
 
 // sendAppendEntries sends an AppendEntries RPC to a node with the provided ID
 // and address.
-func (r *Raft) sendAppendEntries(id string, address string, numResponses *int) {
+func (r *Raft) sendAppendEntries(id string, address string, numResponses *int, round uint64) {
 	r.mu.Lock()
 	defer r.mu.Unlock()
 
@@ -1057,7 +1062,7 @@ func (r *Raft) sendAppendEntries(id string, address string, numResponses *int) {
 	if numResponses != nil {
 		*numResponses += 1
 		if r.hasQuorum(*numResponses) {
-			r.tryApplyReadOnlyOperations()
+			r.tryApplyReadOnlyOperations(round)
 			numResponses = nil
 		}
 	}
@@ -1948,9 +1953,10 @@ func (r *Raft) stepdown() {
 }
 
 // tryApplyReadOnlyOperations renews the lease and notifies the read-only
-// loop that it may be possible to apply some read-only operations.
-func (r *Raft) tryApplyReadOnlyOperations() {
-	r.operationManager.markAsVerified()
+// loop that it may be possible to apply some read-only operations. The
+// provided round is the heartbeat round that was acknowledged by a quorum.
+func (r *Raft) tryApplyReadOnlyOperations(round uint64) {
+	r.operationManager.markAsVerifiedBefore(round)
 	r.operationManager.leaderLease.renew()
 	r.operationManager.shouldVerifyQuorum = true
 	r.readOnlyCond.Broadcast()
